@@ -1,0 +1,39 @@
+//go:build verif
+
+package mask
+
+// Contracts for the verification harness under /verif (comment-only file).
+//
+// C13 / C17: maskValue rebuilds the value from the submatch ranges.  The slice
+// bounds of value[prevFinish:curStart] are the tiling condition: every copied
+// piece starts where the previous masked section ended and ends where the next
+// begins, and the tail starts at the end of the last masked section.
+//
+// Requires what validation guarantees (VerifyGroupNumbers): every selected group
+// number is within 0..NumSubexp.  Nothing is known about the order of groups in
+// the text - KNOWN FINDING (open): nested or descending selected groups violate
+// the tiling condition (panic).
+
+//@ func (*Mask).maskValue
+//@   requires m.Re_ != nil
+//@   requires allrange(m.Groups, 0, uf_nsub(m.Re_) + 1)
+//@   requires m.mode == modeMask || m.mode == modeReplace || m.mode == modeCut
+//@   loop 1 invariant 0 <= prevFinish && prevFinish <= len(value) && rangeindex < len(indexes)
+//@   loop 2 invariant 0 <= prevFinish && prevFinish <= len(value) && rangeindex#2 < len(m.Groups) && 0 <= rangeindex && rangeindex < len(indexes)
+//@   loop 2 invariant len(index) == 2 * (uf_nsub(m.Re_) + 1)
+//@   loop 2 invariant forall k :: 0 <= k && k <= uf_nsub(m.Re_) ==> (index[2*k] == -1 && index[2*k+1] == -1) || (0 <= index[2*k] && index[2*k] <= index[2*k+1] && index[2*k+1] <= len(value))
+//@   callee maskSection(dst, src, b, e)
+//@     requires src == value && 0 <= b && b <= e && e <= len(src)
+//@     pure
+//@     ensures isnil(result) || fresh(result) || sameblock(result, dst)
+
+// maskSection: one asterisk per rune up to max_count, the replace word, or nothing.
+
+//@ func (*Mask).maskSection
+//@   requires 0 <= begin && begin <= end && end <= len(src)
+//@   requires m.mode == modeMask || m.mode == modeReplace || m.mode == modeCut
+//@   ensures m.mode == modeCut ==> result == dst
+//@   ensures m.mode == modeReplace ==> len(result) == len(dst) + len(m.ReplaceWord)
+//@   ensures m.mode == modeMask && m.MaxCount > 0 ==> len(result) - len(dst) <= m.MaxCount
+//@   ensures m.mode == modeMask ==> len(dst) <= len(result) && len(result) - len(dst) <= end - begin
+//@   loop 1 invariant 0 <= i && i <= n && len(dst) == old(len(dst)) + i && n <= end - begin && (m.MaxCount > 0 ==> n <= m.MaxCount)
